@@ -95,16 +95,29 @@ def _run_sequence(kind, cfg, ops, tmp):
         mem = LRUModel(cfg.get("lru_size", 2)) if cfg.get("with_lru") else None
     bad = []
     settled = True
+    handles = [cache]
+    if cfg.get("handles", 1) > 1:
+        # what a worker process receives: the pickled cache.  It must be a handle on the same state under the same lock
+        import pickle
+        try:
+            handles.append(pickle.loads(pickle.dumps(cache)))
+        except Exception as e:  # noqa: BLE001
+            return [f"a shared cache cannot be pickled: {type(e).__name__}: {str(e)[:80]}"]
+        bad += _same_lock(handles[0], handles[1])
+    if cfg.get("guard"):
+        _guard(cache, bad)
     for n, op in enumerate(ops):
         name = op[0]
         if name == "put":
             settled = True
+        cache = handles[n % len(handles)] if name != "reopen" else cache
         try:
             if name == "reopen":  # DiskCache only: a new object on the same directory
                 cfg = {**cfg, "max_size": op[1]}
                 ms = op[1]
                 settled = False  # the constructor does not evict: len <= max_size is demanded again after the next put
                 cache = _mk_cache(kind, cfg, tmp)
+                handles = [cache]
                 mem = LRUModel(cfg.get("lru_size", 2)) if cfg.get("with_lru") else None
                 continue
             if name == "put":
@@ -206,6 +219,109 @@ def _run_sequence(kind, cfg, ops, tmp):
     return bad
 
 
+def _locks_of(cache):
+    return [cache._cache_lock] if hasattr(cache, "_cache_lock") else []
+
+
+def _same_lock(c1, c2):
+    """Representation invariant of a shared cache handle: it holds the manager lock of the cache it was pickled from
+    (holding it through one handle excludes the other)."""
+    bad = []
+    for l1, l2 in zip(_locks_of(c1), _locks_of(c2)):
+        if not hasattr(l2, "acquire"):
+            bad.append(f"the unpickled handle of a shared cache has no lock ({type(l2).__name__})")
+            continue
+        l2.acquire()
+        try:
+            if l1.acquire(False):
+                l1.release()
+                bad.append("the lock of the unpickled handle does not exclude the original handle")
+        finally:
+            l2.release()
+    return bad
+
+
+class _HeldLock:
+    def __init__(self):
+        self.depth = 0
+
+    def __enter__(self):
+        self.depth += 1
+
+    def __exit__(self, *a):
+        self.depth -= 1
+
+
+def _guard(cache, bad):
+    """Frame condition of the shared mode: the state shared between processes is only modified while the cache lock is
+    held.  The containers are replaced by recording ones and the lock by a counter (same code path as shared=True except
+    that the containers are local)."""
+    lock = _HeldLock()
+
+    def note(what):
+        if lock.depth == 0 and len(bad) < 4:
+            bad.append(f"shared state modified outside the cache lock: {what}")
+
+    class GDict(dict):
+        def __setitem__(self, k, v):
+            note("dict[k] = v")
+            super().__setitem__(k, v)
+
+        def __delitem__(self, k):
+            note("del dict[k]")
+            super().__delitem__(k)
+
+        def pop(self, *a):
+            note("dict.pop")
+            return super().pop(*a)
+
+        def setdefault(self, *a):
+            note("dict.setdefault")
+            return super().setdefault(*a)
+
+        def update(self, *a, **k):
+            note("dict.update")
+            return super().update(*a, **k)
+
+        def clear(self):
+            note("dict.clear")
+            return super().clear()
+
+    class GList(list):
+        def append(self, x):
+            note("queue.append")
+            super().append(x)
+
+        def remove(self, x):
+            note("queue.remove")
+            super().remove(x)
+
+        def pop(self, *a):
+            note("queue.pop")
+            return super().pop(*a)
+
+        def __delitem__(self, i):
+            note("del queue[...]")
+            super().__delitem__(i)
+
+        def insert(self, *a):
+            note("queue.insert")
+            super().insert(*a)
+
+        def clear(self):
+            note("queue.clear")
+            super().clear()
+
+    cache._cache_lock = lock
+    for attr, val in list(vars(cache).items()):
+        if attr == "_cache_lock":
+            continue
+        if type(val) is dict:
+            setattr(cache, attr, GDict(val))
+        elif type(val) is list:
+            setattr(cache, attr, GList(val))
+
+
 # ---------------------------------------------------------------------------------------------------------
 def _alphabet(kind):
     ops = [("get", k) for k in KEYS] + [("clear",)]
@@ -253,6 +369,20 @@ def _cases_shared(tier, rng):
                            "ops": [rng.choice(alpha) for _ in range(rng.randint(5, 14))]}
 
 
+def _cases_handles(tier, rng):
+    """shared=True used through two handles (the original and its pickled copy, which is what a worker process gets);
+    and the lock discipline on the state that the handles share."""
+    for kind in ("lru", "hybrid"):
+        alpha = _alphabet(kind)
+        for ms in (1, 2, 3):
+            for _ in range(2 if tier == "quick" else 20):
+                yield {"kind": kind, "cfg": {"max_size": ms, "shared": True, "cloudpickle": rng.random() < 0.5, "handles": 2},
+                       "ops": [rng.choice(alpha) for _ in range(rng.randint(5, 14))]}
+            for _ in range(60 if tier == "quick" else 600):
+                yield {"kind": kind, "cfg": {"max_size": ms, "shared": False, "guard": True},
+                       "ops": [rng.choice(alpha) for _ in range(rng.randint(5, 20))]}
+
+
 def _cases_disk(tier, rng):
     alpha = _alphabet("disk")
     depth = 3 if tier == "quick" else 4
@@ -293,6 +423,9 @@ def bounded_checks():
                                               shards=4 if kind != "simple" else 1, **kw)))
     out.append(("shared-single-process-vs-model", Check("shared-single-process-vs-model", _cases_shared, _check,
                                                         RULE + " (shared=True, one process)", shards=6, **kw)))
+    out.append(("shared-handles-and-lock-discipline", Check("shared-handles-and-lock-discipline", _cases_handles, _check,
+                                                            RULE + " (two handles on one shared cache; modifications "
+                                                            "only under the lock)", shards=6, **kw)))
     out.append(("disk-vs-model", Check("disk-vs-model", _cases_disk, _check, RULE + " + reopen(max_size)", shards=4,
                                        **kw)))
     return out
